@@ -120,7 +120,10 @@ def run_mode(ctx, mode):
                          pid, first.group(0)[:900] if first else dlog[-600:]),
                       {"ops": ops.group(1).strip().rstrip(";") if ops else None, "mode": mode, "driver_output": dlog[:4000]},
                       found_input=False)
-    if wfbfail > 0 and not any(s.startswith("wf-") for s in summ["propfail"]):
+    # the extracted wfb must fail on exactly the snapshots on which the Go predicate fails (a wf
+    # failure ends its case, so the counts agree when both sides see the same failures)
+    go_wf = sum(v["count"] for k, v in summ["propfail"].items() if k.startswith("wf-") or k in ("reattach", "d36"))
+    if wfbfail > go_wf:
         ctx.violation("%s-wfb-extracted" % pid.lower(), "extracted wfb fails on implementation snapshots but the Go "
                       "predicate does not: " + dlog[:600], {"driver_output": dlog[:3000]}, found_input=False)
 
@@ -152,7 +155,10 @@ def run_mode(ctx, mode):
     ctx.assumptions = [
         "every signal / message / enum value has a unique name (name registries are modelled as handle sets)",
         "an enum value is added to at most one enum; messages are not attached to a bus (no CAN 2.0A size limit)",
-        "enum indexes < 2^62 (calcSizeFromValue wraps above; C03's D12)",
+        "integer arguments are arbitrary 64-bit ints (the generators include MaxInt64-k, MinInt64+k, 2^62, 2^31+-1); the "
+        "model is over unbounded Z: after 594ad9e / 39797fd no layout code does arithmetic on an unchecked argument; values "
+        "that have no refusing path (NewMessage sizeByte, type sizes, SetMinSize, enum indexes feeding sizes) are generated "
+        "below 2^60 in magnitude except where stated",
         "Go map iteration over SignalEnum.refs is observable only when two signals of one layout reference the "
         "enum and grow (finding D36): such steps end the history and only acceptance is compared",
     ]
